@@ -3,9 +3,9 @@
 # Confirms a seeded breaking change independently: demo passes without the patch, fails with it, the named repo tests pass
 # with it; then stores it under /verif/seeded/<seed-id>/ and runs the property's quick check against the patched tree.
 set -u
-WT=$1; PATCH=$2; DEMO=$3; SID=$4; PROP=$5; shift 5
+WT=$1; PATCH=$(readlink -f $2); DEMO=$3; SID=$4; PROP=$5; shift 5
 cd $WT || exit 2
-cp $PATCH /tmp/_seed_patch.diff
+cp $PATCH /tmp/_seed_patch.diff || exit 2
 git checkout -q -- python
 git checkout -q --detach $(git -C /repo rev-parse HEAD) || { echo "cannot move worktree to HEAD"; exit 2; }
 PYTHONPATH=$WT/python timeout 600 /venv/bin/python -W ignore $DEMO > /tmp/_seed_demo_clean.log 2>&1; RC_CLEAN=$?
@@ -20,9 +20,9 @@ fi
 mkdir -p /verif/seeded/$SID
 cp /tmp/_seed_patch.diff /verif/seeded/$SID/patch.diff
 cp $DEMO /verif/seeded/$SID/
-cd /verif && PYTHONPATH=$WT/python timeout 3000 ./check $PROP --tier quick > /tmp/_seed_check.log 2>&1; CRC=$?
+cp /verif/evidence/$PROP.json /tmp/_ev_backup_$PROP.json 2>/dev/null; cd /verif && PYTHONPATH=$WT/python timeout 3000 ./check $PROP --tier quick > /tmp/_seed_check.log 2>&1; CRC=$?
 grep -E "^VIOLATION|tier=" /tmp/_seed_check.log | head -3
-echo "check rc=$CRC"
+echo "check rc=$CRC"; cp /tmp/_ev_backup_$PROP.json /verif/evidence/$PROP.json 2>/dev/null
 cat > /verif/seeded/$SID/confirm.json <<J
 {"seed": "$SID", "property": "$PROP", "demo_rc_clean": $RC_CLEAN, "demo_rc_patched": $RC_PATCHED, "repo_tests": "$*", "repo_tests_rc": "$TESTS_OK", "quick_check_rc_on_patched_tree": $CRC}
 J
